@@ -1124,6 +1124,20 @@ private:
       {
         try { c.listenerReady->set_value(false); } catch (...) {}
       }
+      if (c.t == Cmd::Connect)
+      {
+        // connect() already returned this id to its caller (the command was
+        // queued after the final process() above, e.g. by a connect() racing
+        // stop() or issued from a close callback of this drain) and it will
+        // never run: no session exists, so nothing else would ever report it.
+        // Every id handed out gets exactly one onClose.
+        decltype(_cbs.onClose) closeCb;
+        { std::lock_guard<std::mutex> g(_cbMutex); closeCb = _cbs.onClose; }
+        if (closeCb)
+        {
+          closeCb(c.c.sid, TransportErrorInfo{TransportError::ShuttingDown, "shutdown", 0, 0});
+        }
+      }
     }
     if (_epollFd >= 0)
     {
